@@ -87,7 +87,14 @@ theorem C20_view_new (c r : Nat) (slice : Win) (n : Nat) (hn : slice.off + slice
     refine ⟨⟨⟨slice.off, c * r⟩, c, r, c⟩, ?_, ?_, ?_, rfl, rfl, ?_⟩
     · simp [VW.newShared, (zeroRuleOk_iff c r).2 hz, cmul_some hp, hl, Win.indexTo]
     · simp [VW.newMut, (zeroRuleOk_iff c r).2 hz, cmul_some hp, hl, Win.getTo]
-    · refine ⟨Nat.le_refl _, hz, ?_, by simp; omega, hw⟩
+    · refine ⟨Nat.le_refl _, hz, ?_, by simp; omega, hw, ?_⟩
+      rotate_left
+      · show c < WORD
+        by_cases hr : r = 0
+        · have : c = 0 := hz.2 hr
+          simp [this, WORD]
+        · have : c * 1 ≤ c * r := Nat.mul_le_mul_left c (by omega)
+          omega
       by_cases hr : r = 0
       · simp [hr]
       · obtain ⟨k, rfl⟩ : ∃ k, r = k + 1 := ⟨r - 1, by omega⟩
